@@ -81,6 +81,31 @@ def F4():
     return out.dtype != np.int32, f"merged int32 cell field has dtype {out.dtype}"
 
 
+def F5():
+    """C20: `fieldcompare file` on two tables with different numbers of rows exits with 1 while the JUnit report shows
+    tests=0 failures=0 errors=0 (the failure is carried by the suite's own status only)"""
+    import shutil
+    import xml.etree.ElementTree as ET
+    from fieldcompare._cli import main
+    from fieldcompare._cli._logger import CLILogger
+    d = tempfile.mkdtemp(prefix="fcv_w_")
+    try:
+        a, b, j = os.path.join(d, "a.csv"), os.path.join(d, "b.csv"), os.path.join(d, "r.xml")
+        with open(a, "w") as fh:
+            fh.write("x,y\n1.0,2.0\n2.0,3.0\n3.0,4.0\n")
+        with open(b, "w") as fh:
+            fh.write("x,y\n1.0,2.0\n2.0,3.0\n")
+        rc = main(["file", a, b, "--junit-xml", j], CLILogger(output_stream=io.StringIO()))
+        if not os.path.exists(j):
+            return rc != 0, f"exit={rc}, no report written"
+        root = ET.parse(j).getroot()
+        shown = sum(1 for tc in root.iter("testcase") for c in tc if c.tag in ("failure", "error"))
+        return (rc != 0 and shown == 0), (f"exit={rc} tests={root.attrib['tests']} failures={root.attrib['failures']} "
+                                          f"errors={root.attrib['errors']}")
+    finally:
+        shutil.rmtree(d, ignore_errors=True)
+
+
 def F6():
     """C16: rectilinear grids that differ only in the flat direction compare equal"""
     from fieldcompare.mesh import RectilinearMesh, Mesh
